@@ -1,4 +1,4 @@
-\* negative control: today's reader (no file count, whole-stream byte budget) must violate StreamConforms
+\* negative control: today's reader (whole-stream byte budget) must violate StreamConforms
 CONSTANT L = 3
 CONSTANT PartOverhead = 1
 CONSTANT MaxNames = 1
